@@ -161,10 +161,18 @@ func (et *ExecutingTask) rwalk(f func(n Node) error) error {
 }
 
 // Link all the nodes together based on the task pipeline.
-func (et *ExecutingTask) link() error {
+func (et *ExecutingTask) link() (err error) {
+	// A pipeline that was not built by the TICKscript evaluator (e.g. decoded from JSON)
+	// may carry nil lambdas or nil handlers: the node constructors dereference them.
+	// Starting such a task must fail with an error, not panic.
+	defer func() {
+		if r := recover(); r != nil {
+			err = fmt.Errorf("invalid pipeline: %v", r)
+		}
+	}()
 
 	// Walk Pipeline and create equivalent executing nodes
-	err := et.Task.Pipeline.Walk(func(n pipeline.Node) error {
+	err = et.Task.Pipeline.Walk(func(n pipeline.Node) error {
 		d := et.diag.WithNodeContext(n.Name())
 		en, err := et.createNode(n, d)
 		if err != nil {
@@ -187,6 +195,9 @@ func (et *ExecutingTask) link() error {
 		return err
 	}
 
+	if len(et.nodes) == 0 {
+		return errors.New("invalid pipeline: no nodes")
+	}
 	// The first node is always the source node
 	et.source = et.nodes[0]
 	return nil
